@@ -10,7 +10,11 @@ See fjv/fmt.py and specs/FJMFormat.tla.
 """
 from __future__ import annotations
 
+import json
 import random
+import shutil
+import tempfile
+from pathlib import Path
 
 from fjv import engines, fmt, par, tlc
 from fjv.core import Check, MachineryFailure
@@ -19,6 +23,81 @@ from fjv.core import Check, MachineryFailure
 def key_of(rec, fail):
     fl = sorted(fail)
     return {"clauses": ",".join(fl), "version_class": "rel" if rec.get("version", 0) >= 2 else "plain"}
+
+
+def _scale_case(args):
+    """one segment of > 8 MiB of data with a repeat further back than 8 MiB (so that a compressor with a large window refers to
+    it); written with the real Writer, read with the real Reader; digests of what went in and what came out"""
+    import hashlib
+    w, version, preset, nwords, seed = args
+    par.fjm_run()
+    from flipjump.fjm.fjm_consts import FJMVersion
+    from flipjump.fjm.fjm_reader import Reader
+    from flipjump.fjm.fjm_writer import Writer
+    rnd = random.Random(seed)
+    first = [rnd.getrandbits(w) for _ in range(nwords)]
+    data = first + first[: nwords // 8]
+    if len(data) % 2:
+        data.append(0)
+    d = Path(tempfile.mkdtemp(prefix="fjv_c06s_"))
+    rec = {"w": w, "version": version, "preset": preset, "nin": len(data), "segs": [[0, len(data)]], "written": False, "rok": False,
+           "rsegs": [], "nout": 0, "din": "", "dout": "", "err": ""}
+    try:
+        hin = hashlib.sha256()
+        for v in data:
+            hin.update(v.to_bytes(8, "little"))
+        rec["din"] = hin.hexdigest()
+        path = d / "big.fjm"
+        try:
+            kw = {"lzma_preset": preset} if version == 3 else {}
+            wr = Writer(path, w, FJMVersion(version), **kw)
+            wr.add_data(data)
+            wr.add_segment(0, len(data), 0, len(data))
+            wr.write_to_file()
+            rec["written"] = True
+        except BaseException as e:  # noqa: BLE001
+            rec["err"] = f"write: {type(e).__name__}: {str(e)[:120]}"
+            return rec
+        try:
+            r = Reader(path)
+            rec["rok"] = True
+            rec["rsegs"] = [[s_.segment_start, s_.segment_length] for s_ in r.memory_segments]
+            hout = hashlib.sha256()
+            n = 0
+            for i in range(len(data)):
+                hout.update(r.memory.get(i, 0).to_bytes(8, "little"))
+                n += 1
+            rec["nout"], rec["dout"] = n, hout.hexdigest()
+        except BaseException as e:  # noqa: BLE001
+            rec["err"] = f"read: {type(e).__name__}: {str(e)[:120]}"
+    finally:
+        shutil.rmtree(d, ignore_errors=True)
+    return rec
+
+
+def scale_part(chk: Check, so: str, quick: bool, rng: random.Random):
+    plans = [(64, 3, 6), (64, 3, 9)] if quick else [(64, 3, 0), (64, 3, 6), (64, 3, 7), (64, 3, 8), (64, 3, 9), (32, 3, 9), (64, 2, 0)]
+    work = [(w, v, p, 1_200_000 if w == 64 else 2_400_000, chk.seed * 31 + k) for k, (w, v, p) in enumerate(plans)]
+    recs = par.pmap(_scale_case, work, so_path=so, procs=min(4, len(work)), chunksize=1)
+    scratch = Path(tempfile.mkdtemp(prefix="fjv_c06st_"))
+    try:
+        f = scratch / "s.json"
+        f.write_text(json.dumps([{k: r[k] for k in ("written", "rok", "segs", "rsegs", "nin", "nout", "din", "dout")} for r in recs]))
+        res = tlc.run_tlc("Trace_FJMScale", "SPECIFICATION Spec\nCONSTRAINT Verdict\nCHECK_DEADLOCK FALSE\n", workers=1, env={"TRACE_FILE": str(f)}, timeout=600)
+    finally:
+        shutil.rmtree(scratch, ignore_errors=True)
+    chk.add_tlc(res, "Trace_FJMScale", records=len(recs))
+    verdicts = {v["tid"] - 1: v for v in res.emitted.get("V", [])}
+    for i, r in enumerate(recs):
+        v = verdicts.get(i)
+        if v is None:
+            raise MachineryFailure(f"no verdict for scale record {i}")
+        if v["fail"]:
+            chk.violation({"route": "scale", "clauses": ",".join(sorted(v["fail"])), "version_class": "compressed" if r["version"] == 3 else "plain"},
+                          f"w={r['w']} version={r['version']} lzma preset {r['preset']}: {r['nin']} words written, then {v['fail']} fail ({r['err']})",
+                          {k: r[k] for k in r if k not in ()})
+    chk.traces += len(recs)
+    chk.extra["scale_cases"] = [{"w": r["w"], "version": r["version"], "preset": r["preset"], "words": r["nin"]} for r in recs]
 
 
 def run(chk: Check, replay=None):
@@ -72,3 +151,5 @@ def run(chk: Check, replay=None):
             chk.violation(key_of(rec, v["fail"]),
                           f"w={rec['w']} version={rec['version']}: writer sequence rejected by Trace_FJMFormat: {v['fail']}; steps {rec['obs']['steps']} final {rec['obs']['final']} reader {rec.get('rexc')}; spec {v['spec']}",
                           {"record": {k: rec[k] for k in ("w", "version", "calls", "obs")}, "verdict": v})
+    # (C) round trip at a scale TLC cannot enumerate (more than 8 MiB of data in one segment)
+    scale_part(chk, so, quick, rng)
